@@ -151,9 +151,17 @@ def cli_recording(rec, out_path, path_index):
         return open_
 
     def mk_print(_orig):
+        import io
+
         def print_(*a, **k):
             text = " ".join(str(x) for x in a)
             kind = "code" if text.startswith('r"""') or "\nclass " in text or text.startswith("class ") else "message"
+            try:
+                # what a UTF-8 stdout does with it (a real text stream, not a guess): it encodes the whole text first
+                io.TextIOWrapper(io.BytesIO(), encoding="utf-8").write(text + "\n")
+            except UnicodeError:
+                rec.emit("Print", kind=kind, ok=False)
+                raise
             rec.emit("Print", kind=kind, ok=True)
             state.setdefault("printed", []).append(text)
         return print_
